@@ -82,6 +82,13 @@ func (w *c17World) do(c *c17Call) {
 		if err != nil {
 			c.errStr = firstLine(err.Error())
 		}
+	case "balsave":
+		// the same cache also holds cached balances per address: they must not disturb the awaiting index
+		err := c17Cache.SaveBalance(w.addr(c.By), spice.Melange{Currency: 7, SupplementaryCurrency: 1})
+		c.ok = err == nil
+	case "balrm":
+		c17Cache.RemoveBalance(w.addr(c.By))
+		c.ok = true
 	case "read":
 		ts, err := c17Cache.ReadTransactions(w.addr(c.By))
 		c.ok = err == nil
@@ -114,7 +121,7 @@ func parseCalls(spec string) []*c17Call {
 			c.Tx = p[1]
 		case "remove":
 			c.Tx, c.By = p[1], p[2]
-		case "read":
+		case "read", "balsave", "balrm":
 			c.By = p[1]
 		}
 		out = append(out, c)
@@ -219,7 +226,7 @@ func c17Oracle(name string) func(x *sched.X, r *vsched.Result) []common.Violatio
 		if !lin {
 			var res []string
 			for _, c := range w.calls {
-				if c.Kind != "read" {
+				if c.Kind == "save" || c.Kind == "remove" {
 					res = append(res, fmt.Sprintf("%s:%s:%s=%v", c.Kind, c.Tx, c.By, c.ok))
 				}
 			}
@@ -296,7 +303,7 @@ func c17Oracle(name string) func(x *sched.X, r *vsched.Result) []common.Violatio
 func c17Linearizable(calls []*c17Call, finalI, finalRc []string) (bool, int) {
 	var cs []*c17Call
 	for _, c := range calls {
-		if c.Kind != "read" {
+		if c.Kind == "save" || c.Kind == "remove" {
 			cs = append(cs, c)
 		}
 	}
@@ -391,6 +398,7 @@ func c17Scenarios() map[string]*sched.Scenario {
 	add("J/remove||re-save", "save:t1", "remove:t1:Rc", "save:t1")
 	add("K/remove||re-save||save", "save:t1", "remove:t1:Rc", "save:t1", "save:t2")
 	add("L/save,remove||save-same", "", "save:t1,remove:t1:Rc", "save:t1")
+	add("M/save||balance-cache", "save:t1", "save:t2", "balsave:I,balrm:Rc")
 	return m
 }
 
@@ -465,7 +473,7 @@ func c17Sequential(rep *common.Report) {
 	if err != nil {
 		panic(err)
 	}
-	alphabet := []string{"save:t1", "save:t2", "save:t3", "remove:t1:Rc", "remove:t1:I", "remove:t2:Rc", "remove:t3:I", "read:I", "read:Rc"}
+	alphabet := []string{"save:t1", "save:t2", "save:t3", "remove:t1:Rc", "remove:t1:I", "remove:t2:Rc", "remove:t3:I", "read:I", "read:Rc", "balsave:I", "balrm:Rc"}
 	seqs, calls := 0, 0
 	outcomes := map[string]bool{}
 	var rec func(prefix []string)
